@@ -31,6 +31,8 @@ def check(ctx):
     _interp(ctx)
     _reconstruction(ctx)
     _export_rank(ctx)
+    from ..dispatch import check_result_fields_aligned
+    check_result_fields_aligned(ctx, rule="R6-result-fields-aligned")
     _export_columns(ctx)
     # a memoised view must be keyed by everything that selects it (a cache slot shared by several views makes the value depend on access order)
     from ..dispatch import check_cache_keys
